@@ -322,6 +322,53 @@ impl MsgSpec {
     pub fn build(&self) -> Vec<u8> {
         self.with_builder(|b| b.build())
     }
+    /// What the application put into the message, as far as it can be stated without an encoder of
+    /// its own: the attribute types in order (those the builder accepted — it reports each `add`),
+    /// with the exact value bytes for raw attributes; then the seals' types.
+    pub fn handed_in(&self) -> Vec<(u16, Option<Vec<u8>>)> {
+        let tid: TransactionId = self.tid.into();
+        let store: Vec<Option<Box<dyn AttributeWrite>>> = self.attrs.iter().map(|a| a.make(tid)).collect();
+        let mut b = Message::builder(self.lib_type(), tid);
+        let mut out = vec![];
+        for (a, s) in self.attrs.iter().zip(store.iter()) {
+            match (a, s) {
+                (TAttr::Raw(ty, v), _) => {
+                    if *ty == MI || *ty == MI256 || *ty == FP {
+                        continue;
+                    }
+                    if b.add_raw_attribute(RawAttribute::new(AttributeType::new(*ty), v)).is_ok() {
+                        out.push((*ty, Some(v.clone())));
+                    }
+                }
+                (_, Some(boxed)) => {
+                    if b.add_attribute(boxed.as_ref()).is_ok() {
+                        out.push((tattr_type(a), None));
+                    }
+                }
+                _ => {}
+            }
+        }
+        for s in &self.seals {
+            match s {
+                Seal::Sha1(c) => {
+                    if b.add_message_integrity(&c.lib(), IntegrityAlgorithm::Sha1).is_ok() {
+                        out.push((MI, None));
+                    }
+                }
+                Seal::Sha256(c) => {
+                    if b.add_message_integrity(&c.lib(), IntegrityAlgorithm::Sha256).is_ok() {
+                        out.push((MI256, None));
+                    }
+                }
+                Seal::Fp => {
+                    if b.add_fingerprint().is_ok() {
+                        out.push((FP, None));
+                    }
+                }
+            }
+        }
+        out
+    }
     pub fn signed(&self) -> bool {
         self.seals.iter().any(|s| matches!(s, Seal::Sha1(_) | Seal::Sha256(_)))
     }
@@ -635,7 +682,15 @@ pub fn gen_raw_value(ch: &mut Choices, ty: u16) -> Vec<u8> {
         let at = len - 8;
         v[at..at + 4].copy_from_slice(&pat);
     }
-    if matches!(ty, 0x0006 | 0x0014 | 0x0015 | 0x8022 | 0x8003) && ch.coin() {
+    if ty == 0x0015 && ch.rare(1, 4) {
+        // the RFC 8489 nonce cookie "obMatJos2" followed by 0..6 further characters (the security
+        // feature bits are the next four base64 characters — when they are there)
+        let mut t = "obMatJos2".to_string();
+        for _ in 0..ch.below(7) {
+            t.push(*ch.pick(&['A', 'a', '/', 'é', '中', '=']));
+        }
+        v = t.into_bytes();
+    } else if matches!(ty, 0x0006 | 0x0014 | 0x0015 | 0x8022 | 0x8003) && ch.coin() {
         if ch.coin() {
             v = utf8_fill(ch, len);
         } else {
